@@ -7,7 +7,12 @@
                               ParamSpecProofs.spec_ignores_constraints; the check replays the theorem on every case)
      c10_files <k> (<module> <n> (<identifier> <0|1 is-type>)*n)*k
                               -> "OK clean=<b> stem stem ..." (FileSet.file_stems, in writing order) | "FATAL"
-     c10_files_bare ...       -> "OK stem ..." under the bare-identifier rule (spec side only: what must NOT happen) *)
+     c10_files_bare ...       -> "OK stem ..." under the bare-identifier rule (spec side only: what must NOT happen)
+     c10_fold <n> <unit>*n    round 4, coq/Fix/CompileFold.v: the top-level emission units of all modules in order;
+                              <unit> = T <own 0|1> <k> <unit>*k (a type: verdict of its own emitter, EMBEDded components)
+                                     | S <k> <unit>*k           (a parameterized type: its specializations in index order)
+                              -> "OK exit=<0|70> fatals=<number of `FATAL: Cannot compile` lines>"
+     c10_fold_last ...        -> "OK exit=<..>" under the last-wins specialization loop (spec side only: what must NOT happen) *)
 open Model
 open Drvlib
 
@@ -88,8 +93,30 @@ let show_indices = function
   | None -> "ABORT"
   | Some ks -> Stdlib.String.concat " " ("OK" :: List.map (fun k -> string_of_int (int_of_nat k)) ks)
 
+let rec int_of_nat = function O -> 0 | S n -> 1 + int_of_nat n
+
+let read_units (args : string list) : eunit list =
+  let toks = ref args in
+  let next () = match !toks with [] -> raise (Bad "eof") | x :: r -> toks := r; x in
+  let rec times n f = if n <= 0 then [] else let x = f () in x :: times (n - 1) f in
+  let rec unit_ () =
+    match next () with
+    | "T" -> let own = (next () = "1") in let k = int_of_string (next ()) in UType (own, times k unit_)
+    | "S" -> let k = int_of_string (next ()) in UParam (times k unit_)
+    | s -> raise (Bad ("unit " ^ s)) in
+  let n = int_of_string (next ()) in
+  let us = times n unit_ in
+  if !toks <> [] then raise (Bad "trailing tokens");
+  us
+
 let dispatch cmd args =
   match cmd with
+  | "c10_fold" ->
+      (try let us = read_units args in
+           Some (Printf.sprintf "OK exit=%s fatals=%d" (string_of_cz (exit_status us)) (int_of_nat (top_fatals us)))
+       with Bad s -> Some ("BADAST " ^ s) | Failure s -> Some ("BADAST " ^ s))
+  | "c10_fold_last" ->
+      (try Some (Printf.sprintf "OK exit=%s" (string_of_cz (exit_last (read_units args)))) with Bad s -> Some ("BADAST " ^ s) | Failure s -> Some ("BADAST " ^ s))
   | "c10_spec" -> (try Some (show_indices (spec_indices (read_alists args))) with Bad s -> Some ("BADAST " ^ s))
   | "c10_spec_key" -> (try Some (show_indices (spec_indices (List.map key (read_alists args)))) with Bad s -> Some ("BADAST " ^ s))
   | "c10_files" ->
